@@ -8,6 +8,7 @@ CONSTANTS
   RMs = {1, 2}
   MaxIn = 1
   MaxFail = 1
+  Parts = {TRUE, FALSE}
   MaxCancel = 1
   MaxFault = 1
   Dev = {}
